@@ -366,6 +366,21 @@ def rx_9(ctx, rep):
             d = rx.equivalent(rx.compile_nfa(ws + r'\Z'), rx.compile_nfa(pat))
             rep.ob('RX-9', TOK, 'tokenize_lines', 'literal pattern %r' % pat, d is None,
                    'literal whitespace class differs from Whitespace', witness=d[1] if d else None)
+    # literal character sets used to strip blanks inside the tokenizer must be exactly the Whitespace class:
+    # a blank the pseudo token skips but the stripper does not (or vice versa) hides the character that follows it
+    import re as _re
+    n_strip = 0
+    for g in ctx.prog.mod(TOK).funcs.values():
+        for n in walk_own(g.node):
+            if isinstance(n, ast.Call) and isinstance(n.func, ast.Attribute) and n.func.attr in ('lstrip', 'rstrip', 'strip') \
+                    and len(n.args) == 1 and isinstance(n.args[0], ast.Constant) and isinstance(n.args[0].value, str) \
+                    and n.args[0].value.strip() != n.args[0].value:
+                n_strip += 1
+                chars = n.args[0].value
+                d = rx.equivalent(nws, rx.compile_nfa('[%s]*' % ''.join(_re.escape(c) for c in sorted(set(chars)))))
+                rep.ob('RX-9', TOK, g.qual, norm(n), d is None,
+                       'blank characters stripped here differ from the Whitespace class of the pseudo token',
+                       witness=d[1] if d else None)
     pf = ctx.folder(PREFIX)
     sp_ = _src(pf.get('_spacing'), '_spacing')
     ff = _src(pf.get('_form_feed'), '_form_feed')
@@ -790,3 +805,88 @@ def tree_8(ctx, rep):
         rep.ob('TREE-8', PYTREE, name, 'class %s' % name, fast not in c.mro,
                'error leaves can hold multi-line text but inherit the single-line end_pos')
     rep.minimum('TREE-8', 8)
+
+
+# ---------------------------------------------------------------------------
+# RX-10 : every test for '\n' has the same test for '\r'
+# ---------------------------------------------------------------------------
+RX10_MODULES = ['parso/python/tokenize.py', 'parso/python/prefix.py', 'parso/tree.py', 'parso/python/tree.py',
+                'parso/python/diff.py', 'parso/python/errors.py', 'parso/python/pep8.py', 'parso/utils.py',
+                'parso/normalizer.py', 'parso/python/parser.py', 'parso/parser.py', 'parso/grammar.py']
+RX10_ALLOWED = {
+    ('parso/python/diff.py', '_get_last_line'):
+        "pre-existing one-sided test ('\\n' in n.prefix): examined at design time, no failing edit history could be "
+        "constructed; kept as a named exception instead of an alarm",
+    ('parso/tree.py', 'BaseNode.__repr__'): 'repr only (and it replaces both)',
+}
+_NL_METHODS = {'endswith', 'startswith', 'rfind', 'find', 'index', 'rindex', 'count', 'split', 'rsplit', 'partition',
+               'rpartition', 'strip', 'rstrip', 'lstrip', 'replace'}
+
+
+def _nl_kind(e):
+    """'n' / 'r' / 'both' when the expression is a string constant (or display of constants) naming line breaks."""
+    vals = None
+    if isinstance(e, ast.Constant) and isinstance(e.value, str):
+        vals = [e.value]
+    elif isinstance(e, (ast.Tuple, ast.Set, ast.List)) and e.elts and all(
+            isinstance(x, ast.Constant) and isinstance(x.value, str) for x in e.elts):
+        vals = [x.value for x in e.elts]
+    if not vals:
+        return None
+    joined = ''.join(vals)
+    if not joined or any(c not in '\r\n\\' for c in joined):
+        # a literal containing other characters (e.g. a character class like '\r\n#'): both must occur
+        has_n, has_r = '\n' in joined, '\r' in joined
+        if not (has_n or has_r):
+            return None
+        return 'both' if has_n and has_r else ('n' if has_n else 'r')
+    has_n = any(v.replace('\r\n', '').count('\n') or v == '\n' or v.endswith('\\\n') for v in vals) or '\n' in joined.replace('\r\n', '')
+    has_r = any('\r' in v.replace('\r\n', '') for v in vals)
+    if '\r\n' in vals and not has_n and not has_r:
+        return 'both'
+    if has_n and has_r:
+        return 'both'
+    return 'n' if has_n else ('r' if has_r else None)
+
+
+def newline_tests(fn_node):
+    """[(shape, kind, node)]: shape identifies the operation and its other operand."""
+    out = []
+    for n in walk_own(fn_node):
+        if isinstance(n, ast.Compare) and len(n.ops) == 1:
+            l, r = n.left, n.comparators[0]
+            for a, b in ((l, r), (r, l)):
+                k = _nl_kind(a)
+                if k and not isinstance(b, ast.Constant):
+                    out.append(('%s %s' % (type(n.ops[0]).__name__, norm(b)), k, n))
+        elif isinstance(n, ast.Call) and isinstance(n.func, ast.Attribute) and n.func.attr in _NL_METHODS and n.args:
+            k = _nl_kind(n.args[0])
+            if k:
+                out.append(('%s.%s' % (norm(n.func.value), n.func.attr), k, n))
+    return out
+
+
+def rx_10(ctx, rep, modules=None):
+    rep.rule('RX-10', "every test / search for '\\n' is paired, in the same function and on the same operand, with the "
+                      "same test for '\\r' (one definition of line break wherever positions are computed)")
+    n_sites = 0
+    for rel in (modules or RX10_MODULES):
+        mod = ctx.prog.mod(rel)
+        for f in mod.funcs.values():
+            tests = newline_tests(f.node)
+            if not tests:
+                continue
+            shapes = {}
+            for shape, kind, node in tests:
+                shapes.setdefault(shape, set()).add(kind)
+            for shape, kind, node in tests:
+                n_sites += 1
+                kinds = shapes[shape]
+                ok = kind == 'both' or 'both' in kinds or ({'n', 'r'} <= kinds)
+                if not ok and (rel, f.qual) in RX10_ALLOWED:
+                    rep.skip('RX-10', rel, f.qual, norm(node), RX10_ALLOWED[(rel, f.qual)])
+                    continue
+                rep.ob('RX-10', rel, f.qual, norm(node), ok,
+                       "line breaks are recognised by %s only: text with the other newline style gets different "
+                       "positions / parts" % ("'\\n'" if kind == 'n' else "'\\r'"))
+    rep.minimum('RX-10', 10 if modules is None else 1)
